@@ -75,4 +75,25 @@ def ratStr (q : Rat) : String :=
   let fs := String.ofList (List.replicate (12 - fs.length) '0') ++ fs
   (if neg then "-" else "") ++ toString ip ++ "." ++ fs
 
+/-- ⌊log₂ a⌋ of a positive rational -/
+def ratLog2 (a : Rat) : Int :=
+  let e0 : Int := (Nat.log2 a.num.natAbs : Int) - (Nat.log2 a.den : Int)
+  if pow2 e0 ≤ a then (if pow2 (e0 + 1) ≤ a then e0 + 1 else e0) else e0 - 1
+
+/-- round-to-nearest-even of a rational to a binary float with `p` significand bits
+    (normal range only: no subnormals, no overflow) -/
+def rneP (p : Nat) (q : Rat) : Rat :=
+  if q == 0 then 0 else
+  let a := ratAbs q
+  let e := ratLog2 a
+  let scale := pow2 ((p : Int) - 1 - e)
+  let m := a * scale
+  let f : Int := m.floor
+  let r := m - (f : Rat)
+  let n : Int := if r < 1 / 2 then f else if 1 / 2 < r then f + 1 else (if f % 2 == 0 then f else f + 1)
+  let v := (n : Rat) / scale
+  if q < 0 then -v else v
+
+def rne53 : Rat → Rat := rneP 53
+
 end Yata.Drv
